@@ -46,8 +46,10 @@ CLAIMS['C04'] = ('Bounded model checking of the terminal cases and short cuts of
                  'difference.cc, complement.cc: the real constructors, which derive the by-levels / identity-pattern flags, and the part of _compute before the recursion) for '
                  'every combination of reduction rules of operand and result forests (sets: fully, quasi; relations: fully, quasi, identity), same or distinct forests, operands '
                  '0 / true / non-terminal, every level L in [-3,3] and incoming index: the answer denotes the pointwise OR / AND / AND-NOT / NOT under the rules\' meaning of '
-                 'skipped levels (constant vs identity pattern). COPY, redundant/identity chain building and the operation registries are stand-ins; the recursion over nodes, '
-                 'compute-table use, cross product and operand immutability are not covered (whole-library level).', 'DESIGN.md 11.2 C04')
+                 'skipped levels (constant vs identity pattern); plus one step of the cross product (real cross.cc): terminal answers, and each operand is unpacked as a stored '
+                 'node only at the level it has in its own forest (handle numbers name nodes at different levels in the two operand forests). COPY, redundant/identity chain '
+                 'building, unpacked nodes, the compute table and the operation registries are stand-ins; the recursion over nodes, compute-table use and operand '
+                 'immutability are not covered (whole-library level).', 'DESIGN.md 11.2 C04')
 CLAIMS['C17'] = ('Bounded model checking of the registries behind lifecycle safety, real code (forest.cc: registerForest / unregisterForest / getForestWithID / registerEdge / '
                  'unregisterEdge / unregisterDDEdges / markForDeletion; dd_edge.cc: constructors, attach / detach, copy, assignment, destructor) over forest records: every '
                  'history of K steps from {create forest, destroy forest, construct edge, attach, assign, destroy edge} over 3 forests and 3 edges (K = 3, 4 quick; 5, 6 thorough): '
